@@ -38,6 +38,13 @@ SameGapInCPython(c) == HasRef /\ InCat(Ref, c, op) /\ ~Defined(Ref, op)
 CategorisedDefined == \A c \in Cats : InCat(T, c, op) => (Defined(T, op) \/ SameGapInCPython(c))
 CategorisedTakeArg == \A c \in Cats : (InCat(T, c, op) /\ Defined(T, op)) => HasArg(T, op)
 JrelJabsDisjoint   == ~(InCat(T, "jrel", op) /\ InCat(T, "jabs", op))
+(* more generally an operand indexes one table or is one kind of jump: the seven categories are pairwise disjoint *)
+CategoriesDisjoint == \A c1, c2 \in Cats : c1 # c2 => ~(InCat(T, c1, op) /\ InCat(T, c2, op))
+(* every public way of asking for this (version, variant) -- tuple of 2, 3 or 5 parts, float, get_opcode / get_opcode_module -- *)
+(* that answers at all answers with this table (several spellings of several versions are refused with KeyError/TypeError on   *)
+(* the pinned tree: x.y.0 is not a release name the tables know; a refusal is not a wrong table).  Checked once per table.     *)
+Refused(a) == Len(a) >= 7 /\ SubSeq(a, 1, 7) = "raised:"
+LookupsAgree == op = 0 => \A i \in 1..Len(T.lookups) : Refused(T.lookups[i][2]) \/ T.lookups[i][2] = T.module
 
 (* the category sets the decoder consults (JREL_OPS, JABS_OPS, CONST_OPS, NAME_OPS, LOCAL_OPS, FREE_OPS, COMPARE_OPS: frozen   *)
 (* when the table is finalized) are the published has* lists: an opcode defined after the sets were frozen is in one but not  *)
